@@ -129,10 +129,15 @@ PLAN = {
                 known_mc=[], extra_trace=[]),
 }
 
+C05_Q = ["pair", "chain3p", "fanin1", "fanout", "diamondp", "ring2", "ringbreak"]
+C05_T = C05_Q + ["chain3t", "fanin2", "diamondt", "pullchain2", "ring3", "pullring", "pairL"]
+
 VACUITY = {"C04": ["NeverCirc"], "C03": ["NeverDone"], "C01": [], "C02": []}
 
 
 def check(pid, tier):
+    if pid == "C05":
+        return check_c05(pid, tier)
     plan = PLAN[pid]
     ev = Evidence(pid, tier)
     fams = plan[tier]
@@ -220,6 +225,109 @@ def check(pid, tier):
     return finish(pid, ev, out_lines, violations, machinery)
 
 
+def has_topush(cfg):
+    return any(a["k"] == "topush" for c in cfg["comps"] for lk in c["ins"] for a in lk["chain"])
+
+
+def outcome_key(t):
+    """What C05 requires to be identical across listing / linking orders.  On an error
+    outcome only the class is compared (how far the run got before the driver noticed the
+    cycle depends on tie-breaks and is not an outcome of the statement)."""
+    out = t["end"]["out"]
+    if out != "done":
+        return jdump({"out": out})
+    return jdump({"out": out, "time": t["end"]["time"], "series": t["end"]["series"],
+                  "infos": t["end"]["infos"]})
+
+
+def check_c05(pid, tier):
+    ev = Evidence(pid, tier)
+    rng = random.Random(seed())
+    fams = C05_Q if tier == "quick" else C05_T
+    out_lines, violations, machinery = [], [], []
+    # design level: every admissible update order of the property-level scheduler ends
+    # like the as-coded driver (outcome class, final times, everything every consumer got)
+    r = mc(fams if tier == "quick" else fams[:-1], "intended", "abs", ["NoRefusedPull", "OrderIndependent"], [])
+    ev.add_mc("Sched/abs/" + "+".join(fams), r, {"families": fams, "mode": "abs",
+                                                  "invariants": ["NoRefusedPull", "OrderIndependent"]})
+    if not r.ok:
+        path = save_replay(pid, {"kind": "tlc-counterexample", "violated": r.violated, "output": r.out[-6000:]})
+        violations.append((pid, f"design-level: {r.violated} violated in Sched.tla (mode abs)", path))
+    # negative control: with a push-time-dependent adapter the outcome does depend on order
+    rn = tlc.model_check("Sched", MC_TMPL.format(spec="INIT InitAny\nNEXT Next", fams='"pair"',
+                         impl="intended", mode="abs", props="INVARIANT OrderIndependent"), timeout=1500)
+    ev.cov["runs"].append({"kind": "negative-control", "what": "DelayToPush admitted", "violated": rn.violated,
+                           **rn.summary()})
+    if rn.ok:
+        machinery.append("negative control (DelayToPush in abs mode) produced no counterexample")
+    # implementation level: all listing orders x link creation orders
+    base = {}
+    for f in fams:
+        for c in tlc.emit("SchedEmit", {"FAMILY": f}):
+            if has_topush(c):
+                continue
+            k = dict(c)
+            k["order"] = list(range(1, len(c["comps"]) + 1))
+            base.setdefault(jdump(k), k)
+    cfgs = list(base.values())
+    cap = 350 if tier == "quick" else 4000
+    if len(cfgs) > cap:
+        cfgs = rng.sample(cfgs, cap)
+        ev.cov["exhaustive"] = False
+    jobs, group = [], []
+    for gi, c in enumerate(cfgs):
+        n = len(c["comps"])
+        perms = list(itertools.permutations(range(1, n + 1)))
+        if len(perms) > 24:
+            perms = rng.sample(perms, 24)
+        nl = sum(len(x["ins"]) for x in c["comps"])
+        lperms = list(itertools.permutations(range(nl)))
+        if len(lperms) > 4:
+            lperms = [lperms[0], lperms[-1]] + rng.sample(lperms[1:-1], 2)
+        for pi, perm in enumerate(perms):
+            cc = dict(c)
+            cc["order"] = list(perm)
+            jobs.append((cc, lperms[pi % len(lperms)]))
+            group.append(gi)
+    traces = run_configs(jobs)
+    herr = [t for t in traces if "harness_error" in t]
+    if herr:
+        machinery.append(f"{len(herr)} harness errors, first: {herr[0]['harness_error']}")
+    keep = [(g, t) for g, t in zip(group, traces) if "harness_error" not in t]
+    traces = [t for _, t in keep]
+    acc, tot, bad, gen, _ = tlc.validate("Sched_Trace", traces)
+    ev.add_traces("Sched_Trace/permutations/" + "+".join(fams), acc, tot, gen)
+    for k, verdict in sorted(bad.items()):
+        t = traces[k]
+        if sched_property(verdict, t["cfg"]) != pid:
+            continue
+        path = save_replay(pid, {"kind": "sched-trace", "verdict": verdict, "trace": t}) if len(violations) < 10 else "(not saved)"
+        violations.append((pid, f"trace rejected: {verdict}", path))
+    groups = {}
+    for (g, t) in keep:
+        groups.setdefault(g, []).append(t)
+    multi = 0
+    for g, ts in groups.items():
+        keys = {}
+        for t in ts:
+            keys.setdefault(outcome_key(t), t)
+        if len(ts) > 1:
+            multi += 1
+        if len(keys) > 1:
+            a, b = list(keys.values())[:2]
+            path = save_replay(pid, {"kind": "sched-order", "verdict": "order-dependent@0", "trace": a,
+                                     "other": b}) if len(violations) < 10 else "(not saved)"
+            violations.append((pid, f"order-dependent outcome: {a['end']['out']} (order {a['cfg']['order']}) vs "
+                                    f"{b['end']['out']} (order {b['cfg']['order']})", path))
+    ev.cov["distinct_nontrivial"] = multi
+    ev.cov["rule"] = ("base configurations (TLC-enumerated, without DelayToPush) each run under all listing "
+                      "orders (<= 24) and several link creation orders; non-trivial = configuration run under "
+                      "at least two different orders")
+    for t in traces[:2]:
+        ev.sample({"cfg": t["cfg"], "link_order": t.get("link_order"), "end": t["end"]})
+    return finish(pid, ev, out_lines, violations, machinery)
+
+
 def finish(pid, ev, out_lines, violations, machinery):
     ev.violations = len(violations)
     ev.cov["machinery_problems"] = machinery
@@ -244,6 +352,14 @@ def replay(pid, path):
     import json
     with open(path) as f:
         rp = json.load(f)
+    if rp.get("kind") == "sched-order":
+        a = _run_one((rp["trace"]["cfg"], rp["trace"].get("link_order")))
+        b = _run_one((rp["other"]["cfg"], rp["other"].get("link_order")))
+        if outcome_key(a) != outcome_key(b):
+            print(f"VIOLATION property={pid} replay={path}  # order-dependent outcome")
+            return 1
+        print("replayed pair of orders agrees")
+        return 0
     if rp.get("kind") != "sched-trace":
         print(rp.get("output", "")[-3000:])
         return 0
